@@ -64,13 +64,25 @@ func switchFt(desc *thrift_reflection.TypeDescriptor) FieldMaskType {
 		default:
 			return FtScalar // NOTICE: mean fieldmask exist and is all
 		}
-	} else if desc.IsStruct() {
+	} else if desc.IsStruct() || desc.IsUnion() || desc.IsException() {
 		return FtStruct
 	} else if desc.IsEnum() {
 		return FtScalar
 	} else {
 		return FtInvalid // NOTICE: mean fieldmask not exist
 	}
+}
+
+// structLikeDesc returns the descriptor of a struct, union or exception type:
+// all three get Set_FieldMask and are addressed by field name or id.
+func structLikeDesc(desc *thrift_reflection.TypeDescriptor) (*thrift_reflection.StructDescriptor, error) {
+	if st, err := desc.GetStructDescriptor(); err == nil && st != nil {
+		return st, nil
+	}
+	if st, err := desc.GetUnionDescriptor(); err == nil && st != nil {
+		return st, nil
+	}
+	return desc.GetExceptionDescriptor()
 }
 
 func unwrapDesc(desc *thrift_reflection.TypeDescriptor) *thrift_reflection.TypeDescriptor {
@@ -93,7 +105,7 @@ func (self *FieldMask) print(buf *strings.Builder, indent int, desc *thrift_refl
 		desc = unwrapDesc(desc)
 	}
 	if self.typ == FtStruct {
-		st, err := desc.GetStructDescriptor()
+		st, err := structLikeDesc(desc)
 		if err != nil {
 			panic(err)
 		}
